@@ -472,7 +472,7 @@ def _r20c(ctx, u, f):
     compared as affine normal forms (no dependence on local names or statement shapes)"""
     pos = f.args.args[1].arg
     try:
-        cases = symex.return_cases(f, pure=('bisect_right', 'bisect'))
+        cases = symex.return_cases_inlined(f, u.methods('LineNumbersCalculator'), pure=('bisect_right', 'bisect'))
     except symex.TooManyPaths as e:
         ctx.unknown('R20c', u, f, str(e), construct='pos_to_lineno_colno')
         return
